@@ -6,7 +6,10 @@
 
    Tokens: ints decimal; doubles `x<16 hex digits>` (bit pattern); strings %-escaped, `~` = NULL pointer;
    error-slot mode `E` (fresh empty slot) or `N` (NULL); crystals `@<name>` (a private copy obtained with
-   Crystal_GetCrystal(name, NULL, NULL), released after the call).
+   Crystal_GetCrystal(name, NULL, NULL), released after the call) or `$<name>` (the entry of that name INSIDE the shared
+   user array `xrl_shared`, not copied: several threads hand the same Crystal_Struct to the library; NULL without one).
+   `retain-<op>`: objects the op hands out — results AND the error object of a failing call, whatever the op — are kept
+   alive and re-rendered at the end of the history (history harness only).
    The dispatch of the functions with a generic signature is generated from the clang AST of the working tree on
    every run (xrl_ops_gen.inc, see tools/xrlops.py). */
 #ifndef XRL_OPS_H
@@ -52,8 +55,13 @@ static void ob_err(obuf *o, char mode, xrl_error **e) {
   if (*e == NULL) { ob_put(o, " e:-"); return; }
   ob_put(o, " e:%d:", (int)(*e)->code); ob_s(o, (*e)->message);
 }
+/* objects retained across ops by the history harness (NULL in the other harnesses) */
+typedef struct retained { int kind; void *obj; char *snap; struct retained *next; } retained;
+static void retain(retained **keep, int kind, void *obj);
+
+/* SLOT_END: `ret` (the op carries the `retain-` prefix and the harness keeps objects) -> the slot's error object stays alive */
 #define SLOT(tok) char mode = (tok)[0]; xrl_error *e = NULL; xrl_error **ep = (mode == 'N') ? NULL : &e
-#define SLOT_END  do { ob_err(o, mode, &e); if (e) xrl_error_free(e); } while (0)
+#define SLOT_END  do { ob_err(o, mode, &e); if (e) { if (ret && keep) retain(keep, 0, e); else xrl_error_free(e); } } while (0)
 
 static void ob_crystal(obuf *o, const Crystal_Struct *c) {
   if (!c) { ob_put(o, "crystal:~"); return; }
@@ -91,10 +99,38 @@ static void ob_list(obuf *o, char **l, int n) {
 /* `@name` -> private copy of a built-in crystal (NULL if the name is unknown) */
 static Crystal_Struct *op_crystal(char *tok) { char *nm = op_ps(tok + 1); return nm ? Crystal_GetCrystal(nm, NULL, NULL) : NULL; }
 
-#include "xrl_ops_gen.inc"     /* static int xrl_dispatch_gen(obuf *o, char **t, int nt) */
+/* The one piece of storage shared between threads: a USER crystal array built by the harness before any thread starts and only
+   READ afterwards (C17: "only explicit modification of a shared crystal collection requires locking" — reading one does not). */
+static Crystal_Array *xrl_shared = NULL;
+static void xrl_shared_build(const char *file) {
+  static const char *names[] = { "Si", "Ge", "Diamond", "AlphaQuartz", "LiF", "Beryl", "Muscovite", "TlAP", NULL };
+  xrl_shared = Crystal_ArrayInit(2, NULL);            /* small on purpose: the array is extended while it is filled */
+  for (int i = 0; names[i] && xrl_shared; i++) { Crystal_Struct *c = Crystal_GetCrystal(names[i], NULL, NULL); if (c) { Crystal_AddCrystal(c, xrl_shared, NULL); Crystal_Free(c); } }
+  if (file && xrl_shared) Crystal_ReadFile(file, xrl_shared, NULL);
+}
+/* `$name` -> the entry inside the shared array itself (no copy) */
+static Crystal_Struct *op_shared_entry(char *tok) {
+  char *nm = op_ps(tok + 1);
+  if (!nm || !xrl_shared) return NULL;
+  for (int i = 0; i < xrl_shared->n_crystal; i++) if (!strcmp(xrl_shared->crystal[i].name, nm)) return &xrl_shared->crystal[i];
+  return NULL;
+}
+/* FNV-1a over the CONTENTS of a crystal array (entries, names, atoms: also the heap blocks a link-map region cannot see) */
+static uint64_t xrl_array_hash(const Crystal_Array *a) {
+  uint64_t h = 1469598103934665603ULL;
+#define FNV(p, n) do { const unsigned char *q_ = (const unsigned char *)(p); for (size_t k_ = 0; k_ < (size_t)(n); k_++) { h ^= q_[k_]; h *= 1099511628211ULL; } } while (0)
+  FNV(&a->n_crystal, sizeof a->n_crystal); FNV(&a->n_alloc, sizeof a->n_alloc);
+  for (int i = 0; i < a->n_crystal; i++) {
+    const Crystal_Struct *c = &a->crystal[i];
+    if (c->name) FNV(c->name, strlen(c->name) + 1);
+    FNV(&c->a, 8); FNV(&c->b, 8); FNV(&c->c, 8); FNV(&c->alpha, 8); FNV(&c->beta, 8); FNV(&c->gamma, 8); FNV(&c->volume, 8); FNV(&c->n_atom, sizeof c->n_atom);
+    for (int k = 0; k < c->n_atom && c->atom; k++) { FNV(&c->atom[k].Zatom, sizeof(int)); FNV(&c->atom[k].fraction, 8); FNV(&c->atom[k].x, 8); FNV(&c->atom[k].y, 8); FNV(&c->atom[k].z, 8); }
+  }
+#undef FNV
+  return h;
+}
 
-/* objects retained across ops by the history harness (NULL in the other harnesses) */
-typedef struct retained { int kind; void *obj; char *snap; struct retained *next; } retained;
+#include "xrl_ops_gen.inc"     /* static int xrl_dispatch_gen(obuf *o, char **t, int nt, retained **keep, int ret) */
 
 static char *snap_of(int kind, void *obj) {
   static const size_t CAP = 1 << 16;
@@ -109,6 +145,15 @@ static char *snap_of(int kind, void *obj) {
 static void retain(retained **keep, int kind, void *obj) {
   if (!obj) return;
   retained *r = malloc(sizeof *r); r->kind = kind; r->obj = obj; r->snap = snap_of(kind, obj); r->next = *keep; *keep = r;
+}
+
+/* xrl_error_new_valist needs a va_list */
+static xrl_error *op_new_valist(xrl_error_code code, const char *fmt, ...) { va_list ap; va_start(ap, fmt); xrl_error *e = xrl_error_new_valist(code, fmt, ap); va_end(ap); return e; }
+static void ob_arr(obuf *o, Crystal_Array *arr) {      /* complete contents of a user array, through the public lookups */
+  int n = -7; char **l = Crystal_GetCrystalsList(arr, &n, NULL);
+  ob_put(o, " n=%d", n);
+  for (int i = 0; l && l[i]; i++) { Crystal_Struct *g = Crystal_GetCrystal(l[i], arr, NULL); ob_put(o, " {"); ob_crystal(o, g); ob_put(o, "}"); Crystal_Free(g); xrlFree(l[i]); }
+  if (l) xrlFree(l);
 }
 
 /* execute one op; returns 0 for an unknown op.  `keep` != NULL: ops prefixed `retain-` keep their object alive. */
@@ -165,6 +210,32 @@ static int xrl_op(obuf *o, char **t, int nt, retained **keep) {
     SLOT(t[3]); Crystal_Struct *c = op_crystal(t[1]); int r = -1;
     if (c) { free(c->name); c->name = xrl_strdup(op_ps(t[2])); r = Crystal_AddCrystal(c, NULL, ep); }
     ob_put(o, "i:%d", r); SLOT_END; Crystal_Free(c); return 1; }
+  if (!strcmp(op, "AddUser") && nt == 4) {            /* source-name new-name slot: Crystal_AddCrystal into a USER array (twice: the 2nd is a duplicate) */
+    SLOT(t[3]); Crystal_Array *arr = Crystal_ArrayInit(1, NULL); Crystal_Struct *c = op_crystal(t[1]); int r1 = -1, r2 = -1;
+    if (c && arr) { free(c->name); c->name = xrl_strdup(op_ps(t[2])); r1 = Crystal_AddCrystal(c, arr, NULL); r2 = Crystal_AddCrystal(c, arr, ep);
+                    Crystal_Struct *d = Crystal_GetCrystal("Ge", NULL, NULL); if (d) { ob_put(o, "ge:%d ", Crystal_AddCrystal(d, arr, NULL)); Crystal_Free(d); } }
+    ob_put(o, "i:%d,%d", r1, r2); if (arr) ob_arr(o, arr); SLOT_END; Crystal_Free(c); Crystal_ArrayFree(arr); return 1; }
+  if (!strcmp(op, "ReadFileUser") && nt == 3) {       /* file slot: a SUCCESSFUL (or failing) Crystal_ReadFile into a user array */
+    SLOT(t[2]); Crystal_Array *arr = Crystal_ArrayInit(0, NULL); int r = arr ? Crystal_ReadFile(op_ps(t[1]), arr, ep) : -1;
+    ob_put(o, "i:%d", r); if (arr) ob_arr(o, arr); SLOT_END; Crystal_ArrayFree(arr); return 1; }
+  if (!strcmp(op, "ReadFileBuiltin") && nt == 3) {    /* file slot: EXPLICIT insertion of a file's crystals into the built-in array */
+    SLOT(t[2]); int r = Crystal_ReadFile(op_ps(t[1]), NULL, ep); ob_put(o, "i:%d", r); SLOT_END; return 1; }
+  if (!strcmp(op, "SharedGet") && nt == 3) {           /* name slot: lookup (copy) in the shared user array */
+    SLOT(t[2]); Crystal_Struct *c = xrl_shared ? Crystal_GetCrystal(op_ps(t[1]), xrl_shared, ep) : NULL; ob_crystal(o, c); SLOT_END;
+    if (c) { if (ret) retain(keep, 1, c); else Crystal_Free(c); } return 1; }
+  if (!strcmp(op, "SharedList") && nt == 2) {
+    SLOT(t[1]); int n = -7; char **l = xrl_shared ? Crystal_GetCrystalsList(xrl_shared, &n, ep) : NULL; ob_list(o, l, n); SLOT_END; return 1; }
+  if (!strcmp(op, "ErrorNew") && nt == 3) {            /* code text: the five private constructors called directly (xraylib-error-private.h) */
+    int code = op_pi(t[1]); char *msg = op_ps(t[2]); xrl_error *a, *b, *c, *d = NULL, *f = NULL;
+    a = xrl_error_new((xrl_error_code)code, "%s/%d/%g", msg ? msg : "(null)", code, 0.5 * code);
+    b = xrl_error_new_literal((xrl_error_code)code, msg ? msg : "");
+    c = op_new_valist((xrl_error_code)code, "<%s>", msg ? msg : "");
+    xrl_set_error(&d, (xrl_error_code)code, "Z=%d %s", code, msg ? msg : ""); xrl_set_error_literal(&f, (xrl_error_code)code, msg ? msg : "");
+    xrl_set_error(NULL, (xrl_error_code)code, "%s", "ignored"); xrl_set_error_literal(NULL, (xrl_error_code)code, "ignored");
+    xrl_error *all[5] = { a, b, c, d, f };
+    for (int i = 0; i < 5; i++) { if (all[i]) { ob_put(o, " %d:", (int)all[i]->code); ob_s(o, all[i]->message); } else ob_put(o, " ~");
+      if (all[i]) { if (ret && i == 0) retain(keep, 0, all[i]); else xrl_error_free(all[i]); } }
+    return 1; }
   if (!strcmp(op, "ErrorApi") && nt == 3) {            /* Z line: a failing call, then the error API on its error object */
     xrl_error *e = NULL, *d = NULL; double v = LineEnergy(op_pi(t[1]), op_pi(t[2]), &e);
     ob_d(o, v);
@@ -189,23 +260,23 @@ static int xrl_op(obuf *o, char **t, int nt, retained **keep) {
     char *tt[40]; if (nt > 40) return 0;
     for (int i = 0; i < nt; i++) tt[i] = t[i];
     tt[0] = (char *)op;
-    return xrl_dispatch_gen(o, tt, nt);
+    return xrl_dispatch_gen(o, tt, nt, keep, ret);
   }
 }
 
 /* verify the retained objects against the snapshot taken when they were created; releases them */
 static int retained_check(retained *keep, obuf *o) {
-  int n = 0, bad = 0;
+  int n = 0, bad = 0, nerr = 0;
   while (keep) {
     char *now = snap_of(keep->kind, keep->obj);
-    n++;
+    n++; if (keep->kind == 0) nerr++;
     if (strcmp(now, keep->snap)) { bad++; ob_put(o, "retained-changed kind=%d was{%s} now{%s}\n", keep->kind, keep->snap, now); }
     free(now); free(keep->snap);
     switch (keep->kind) { case 0: xrl_error_free(keep->obj); break; case 1: Crystal_Free(keep->obj); break; case 2: FreeCompoundData(keep->obj); break;
                           case 3: FreeCompoundDataNIST(keep->obj); break; default: FreeRadioNuclideData(keep->obj); }
     retained *nx = keep->next; free(keep); keep = nx;
   }
-  ob_put(o, "retained %d changed %d\n", n, bad);
+  ob_put(o, "retained %d changed %d errors %d\n", n, bad, nerr);
   return bad;
 }
 
